@@ -5,6 +5,7 @@ import (
 	"go/ast"
 	"go/token"
 	"go/types"
+	"os"
 	"sort"
 	"strings"
 
@@ -492,10 +493,11 @@ func (f *Frame) binop(x *ssa.BinOp, st *State, reach string) {
 
 func (f *Frame) overflow(x ssa.Value, term, reach string) {
 	g := f.g
-	if g.contract == nil || !g.contract.Overflow {
+	sweep := os.Getenv("VERIF_OVERFLOW_SWEEP") == "1" // exploration aid (not used by any registered command): A-ARITH switched off everywhere
+	if g.contract == nil || (!g.contract.Overflow && !sweep) {
 		return
 	}
-	if only := g.contract.OverflowOnly; len(only) > 0 {
+	if only := g.contract.OverflowOnly; len(only) > 0 && !sweep {
 		// restricted to the results assigned to the named locals or struct fields
 		hit := false
 		if refs := x.Referrers(); refs != nil {
